@@ -89,4 +89,49 @@ example : deserialize [0x80, 0x02, 0x01, 0x01, 0x02, 0x01, 0xff] =
 example : deserialize [0x80, 0x02, 0x01, 0x02] = .error .irregular := by rfl
 example : deserialize [0x82, 0x01, 0x80, 0x00, 0x01, 0x01] = .error .badtype := by rfl
 
+/-- **Round trip** (first clause of the property). `v` is a value of heap `h` that denotes the tree `t`
+(`unfold h MAX_COUNT v = some t`: no cycle is reachable from `v` and containers are nested at most `MAX_COUNT = 1024`
+deep; shared sub-structures are allowed and are unfolded). If `Serialize` succeeds (which includes the 1 MB size limit and
+the detector's verdict) then `Deserialize` of the produced bytes consumes them entirely and returns exactly `t`.
+Holds for both detector variants and every iteration order.
+Equality is equality of trees, i.e. *up to integer representation* (the model's integers are mathematical integers: the
+int64 / big.Int representations of a VM integer are identified) and *up to map key order* (a map is its key-sorted
+entry list, both in the heap and in the tree).  `WFHeap`: arrays/structs have at most 1024 elements, maps are keyed by
+`AsBytes` of their key values, integers fit in 32 bytes (the decoder rejects larger ones). -/
+theorem C14_roundtrip (var : Variant) (perm : Perm) (hv : perm.valid) (h : Heap) (w : WFHeap h) (v : Val) (hok : valOK v)
+    (t : Tree) (hu : unfold h MAX_COUNT v = some t) (out : Bytes) (hs : serialize var perm h v = .ok out) :
+    deserialize out = .ok (t, ⟨out, out.length⟩) :=
+  roundtrip var perm hv h w v hok t hu out hs
+
+/-- non-vacuity: `[ {"": 0, 01: true}, s, s ]` with a shared struct `s = {-1}`; serialization succeeds under both variants -/
+def rtHeap : Heap := [.arr [.ref 1, .ref 2, .ref 2], .map [⟨[], .int 0, .int 0⟩, ⟨[1], .bool true, .bool true⟩], .struct [.int (-1)]]
+
+example : serialize .asShipped Perm.id rtHeap (.ref 0) =
+    .ok [0x80, 3, 0x82, 2, 2, 0, 2, 0, 1, 1, 1, 1, 0x81, 1, 2, 1, 0xff, 0x81, 1, 2, 1, 0xff] := by decide
+example : serialize .sound Perm.id rtHeap (.ref 0) = serialize .asShipped Perm.id rtHeap (.ref 0) := by decide
+example : unfold rtHeap MAX_COUNT (.ref 0) = some (.arr [.map [([], .int 0, .int 0), ([1], .bool true, .bool true)],
+    .struct [.int (-1)], .struct [.int (-1)]]) := by rfl
+example : WFHeap rtHeap := by
+  have hcases : ∀ (r : Ref) (o : Obj), rtHeap[r]? = some o →
+      (r = 0 ∧ o = rtHeap[0]) ∨ (r = 1 ∧ o = rtHeap[1]) ∨ (r = 2 ∧ o = rtHeap[2]) := by
+    intro r o h
+    match r, h with
+    | 0, h => exact .inl ⟨rfl, (Option.some.inj h).symm⟩
+    | 1, h => exact .inr (.inl ⟨rfl, (Option.some.inj h).symm⟩)
+    | 2, h => exact .inr (.inr ⟨rfl, (Option.some.inj h).symm⟩)
+    | n+3, h => simp [rtHeap] at h
+  refine ⟨?_, ?_, ?_, ?_⟩
+  · intro r vs h
+    rcases hcases r _ h with ⟨_, e⟩ | ⟨_, e⟩ | ⟨_, e⟩ <;> simp [rtHeap] at e
+    subst e; decide
+  · intro r vs h
+    rcases hcases r _ h with ⟨_, e⟩ | ⟨_, e⟩ | ⟨_, e⟩ <;> simp [rtHeap] at e
+    subst e; decide
+  · intro r es h
+    rcases hcases r _ h with ⟨_, e⟩ | ⟨_, e⟩ | ⟨_, e⟩ <;> simp [rtHeap] at e
+    subst e
+    exact ⟨by unfold SortedK; decide, by decide, by decide⟩
+  · intro r o h
+    rcases hcases r _ h with ⟨_, e⟩ | ⟨_, e⟩ | ⟨_, e⟩ <;> subst e <;> decide
+
 end OntVerif.Props.C14
